@@ -122,6 +122,16 @@ CLAIMED = {
         "and against the declarative clauses, with the input projected again after each call (InputUnmodified).",
    note="Withheld positive attribute: values are such that the documented guess is right; integer depth values.",
    ref="5 C13"),
+ "C14": dict(
+   text="TLC checks for every simple polygon with 3-5 (quick) / 3-6 (thorough) vertices on a 3x3 point lattice (convex, reflex, "
+        "collinear vertices, both windings, every start vertex) that the code's two mechanisms transcribed into TLA+ (fan for "
+        "strictly convex rings, first-fit ear clipping without wrap-around otherwise) always find a diagonal and yield an exact "
+        "partition (n-2 non-degenerate triangles on the cell's own vertices, inside the cell, pairwise disjoint, areas summing to "
+        "the cell's); triangulate_dataset's output for generated datasets (grids with holes; meshes of 3-8 sided convex / concave "
+        "/ collinear / clockwise / anticlockwise faces) is validated cell by cell with the same predicate by TLC, plus valid and "
+        "unique vertices, correct cell indices and nothing for holes.",
+   note="Result predicate on the output (the particular triangulation is free). Known finding F16: rings with a repeated vertex from CF 2-D bounds synthesis.",
+   ref="5 C14"),
  "C15": dict(
    text="TLC checks on the bounded universe that the specification's export list (valid cells only, ascending, each with its "
         "linear and native index) satisfies OnlyValidCells / EveryValidCellOnce / LinearOrder / IndexesIdentifyCell; files written "
